@@ -81,6 +81,17 @@ def _select(func, selector):
                     and node.targets[0].attr == arg):
                 return node.value
         raise Untranslatable(f"{func.name}: assignment to .{arg} not found")
+    if kind == "comp-elt-key":
+        # `d["key"] = [e for ...]` (possibly nested one level: `[[e for ...]]`)
+        for node in ast.walk(func):
+            if (isinstance(node, ast.Assign) and len(node.targets) == 1 and isinstance(node.targets[0], ast.Subscript)
+                    and isinstance(node.targets[0].slice, ast.Constant) and node.targets[0].slice.value == arg):
+                v = node.value
+                if isinstance(v, ast.List) and len(v.elts) == 1:
+                    v = v.elts[0]
+                if isinstance(v, ast.ListComp):
+                    return v.elt
+        raise Untranslatable(f"{func.name}: `...[{arg!r}] = [e for ...]` not found")
     if kind == "comp-elt":
         for node in ast.walk(func):
             if (isinstance(node, ast.Assign) and len(node.targets) == 1 and isinstance(node.targets[0], ast.Name)
@@ -238,6 +249,16 @@ SPECS = [
          select="comp-elt:chunk_fetch_factor", ty="Int", result="val", noinline=True),
     dict(name="statsChunksPerAxis", file="scripts/scale_stats.py", func="show_scales_info",
          select="comp-elt:size_in_chunks", ty="Int", result="val", noinline=True),
+    dict(name="scaleFactor", file="dyadic_pyramid.py", func="fill_scales_for_dyadic_pyramid.downscale_info",
+         select="comp-elt:factors", ty="Int", result="val", noinline=True),
+    dict(name="scaleSize", file="dyadic_pyramid.py", func="fill_scales_for_dyadic_pyramid.downscale_info",
+         select="comp-elt-key:size", ty="Int", result="val", noinline=True),
+    dict(name="anisotropyFactor", file="dyadic_pyramid.py", func="fill_scales_for_dyadic_pyramid.downscale_info",
+         select="comp-elt:anisotropy_factors", ty="Int", result="val", noinline=True),
+    dict(name="baseChunkExponent", file="dyadic_pyramid.py", func="fill_scales_for_dyadic_pyramid.downscale_info",
+         select="assign:base_chunk_exponent", ty="Int", result="val", noinline=True),
+    dict(name="chunkSizeOfExponent", file="dyadic_pyramid.py", func="fill_scales_for_dyadic_pyramid.downscale_info",
+         select="comp-elt-key:chunk_sizes", ty="Int", result="val", noinline=True),
     dict(name="minishardMask", file="sharded_base.py", func="ShardSpec.minishard_mask",
          select="assign-attr:_minishard_mask", ty="U64", result="val"),
     dict(name="preshiftMask", file="sharded_base.py", func="ShardSpec.preshift_mask",
@@ -274,6 +295,13 @@ FALLBACK = {
     "pyrHalfChunk": ("(osz f : Int)", "Int", "(osz / f)"),
     "pyrFetchFactor": ("(nsz hc : Int)", "Int", "(nsz / hc)"),
     "statsChunksPerAxis": ("(s cs : Int)", "Int", "(((s - (1 : Int)) / cs) + (1 : Int))"),
+    "scaleFactor": ("(scale_level delay : Int)", "Int", "((2 : Int) ^ (max (0 : Int) (scale_level - delay)).toNat)"),
+    "scaleSize": ("(sz axis_factor : Int)", "Int", "(ceilDiv sz axis_factor)"),
+    "anisotropyFactor": ("(max_delay delay scale_level : Int)", "Int", "(max (0 : Int) ((max_delay - delay) - scale_level))"),
+    "baseChunkExponent": ("(target_chunk_exponent sum_anisotropy_factors : Int)", "Int",
+                          "(target_chunk_exponent - ((sum_anisotropy_factors + (1 : Int)) / (3 : Int)))"),
+    "chunkSizeOfExponent": ("(base_chunk_exponent anisotropy_factor : Int)", "Int",
+                            "((2 : Int) ^ (base_chunk_exponent + anisotropy_factor).toNat)"),
     "minishardMask": ("(minishard_bits : Nat)", "Nat",
                       "(Routing.not64 (Routing.shl64 (Routing.shr64 Routing.MAX64 minishard_bits) minishard_bits))"),
     "preshiftMask": ("(preshift_bits : Nat)", "Nat",
